@@ -2193,6 +2193,11 @@ func (e *Extractor) extractPreserveLayout(fragments []text.TextFragment, pageWid
 			if gapInLines < 1 {
 				gapInLines = 1
 			}
+			// positions come from the file; a fragment placed absurdly far away must not
+			// turn into millions of newlines
+			if gapInLines > maxPreservedBlankLines {
+				gapInLines = maxPreservedBlankLines
+			}
 
 			// Add newlines (1 for normal line break, more for vertical gaps)
 			for i := 0; i < gapInLines; i++ {
@@ -2211,6 +2216,10 @@ func (e *Extractor) extractPreserveLayout(fragments []text.TextFragment, pageWid
 			targetCol := int(frag.X / charWidth)
 			if targetCol < 0 {
 				targetCol = 0
+			}
+			// same for the horizontal position (strings.Repeat panics on overflow)
+			if targetCol > maxPreservedColumns {
+				targetCol = maxPreservedColumns
 			}
 
 			// Add spaces to reach target column
@@ -2231,6 +2240,12 @@ func (e *Extractor) extractPreserveLayout(fragments []text.TextFragment, pageWid
 
 	return result.String()
 }
+
+// Bounds for the padding extractPreserveLayout inserts to mimic positions.
+const (
+	maxPreservedBlankLines = 100
+	maxPreservedColumns    = 2000
+)
 
 // isCharacterLevel detects if fragments appear to be character-level
 // (one character per fragment) which requires special handling.
